@@ -1,8 +1,17 @@
 (* Model/Reader.v -- readers interleaved with writers (C02).
-   A read API resolves the pointer ONCE (transaction.py Table._get_all_data_files -> current_snapshot ->
-   refresh) and then reads the manifest list, the manifests and the data files that version names; all
-   of them are write-once files.  Readers are added on top of Model/Fault.v: writers may commit, fail,
-   be interrupted, crash and roll back in any interleaving with the readers' steps.
+   A read call (scan, to_pandas, scan_batches, iter_records, iter_pandas, row_count) resolves the pointer
+   (MetadataManager.refresh: pointer, then the write-once metadata file it names), takes the file list of that
+   version (manifest list, manifests, data files: all write-once files) and reads those files one by one.
+   How many times the code resolves the pointer within one call is NOT assumed: it is the parameter [budget],
+   which Props/C02.v instantiates with the number counted on the source (Gen/GenReadRes.v,
+   [read_api_resolutions], through Proofs/ReadResProofs.v).  A second resolution replaces the version and the
+   list of files still to be read and keeps what was already read -- with budget 2 a call can return a mixture
+   of two versions (Proofs/ReaderProofs.v, [snapshot_read_refuted_for_two_resolutions]); with the budget the
+   repaired code has (1) it cannot.
+   Readers are added on top of Model/Fault.v: writers may commit, fail, be interrupted, crash and roll back in
+   any interleaving with the readers' steps.  Files are identified by their names; names are fresh and files
+   write-once (Model/Fault.v), so the CONTENT of a file is a function of its name: the rows a call returns are
+   [result_rows content s] for an arbitrary [content].
    Definitions only; proofs in Proofs/ReaderProofs.v. *)
 From Coq Require Import ZArith List Bool Arith.
 Require Import DS.Model.Commit DS.Model.Fault.
@@ -12,11 +21,13 @@ Definition rid := nat.
 
 Record rstate := {
   r_start : option nat;     (* number of pointer flips that had happened when the read call started *)
-  r_idx : option nat;       (* ... when it resolved the pointer *)
+  r_nres : nat;             (* pointer resolutions made so far in this call *)
+  r_idx : option nat;       (* number of pointer flips that had happened at the (latest) resolution *)
   r_vid : option vid;       (* the version it resolved *)
-  r_ok : bool;              (* every file read so far found its file *)
-  r_nread : nat;
-  r_end : option nat }.     (* ... when the call returned *)
+  r_todo : list fid;        (* files of that version still to be read, in order *)
+  r_got : list fid;         (* files read successfully so far, in order *)
+  r_ok : bool;              (* every file read so far found its file (false: the call raises) *)
+  r_end : option nat }.     (* number of pointer flips that had happened when the call returned *)
 
 Record rworld := { rx : fworld; r_readers : rid -> rstate }.
 
@@ -24,55 +35,69 @@ Inductive revent :=
 | RSys (e : fevent)         (* any writer-side event *)
 | RStart (r : rid)
 | RPtr (r : rid)            (* resolve the pointer: one atomic read (pointer, then its write-once metadata file) *)
-| RFile (r : rid) (f : fid) (* read one file named by the resolved version *)
-| REnd (r : rid).
+| RFile (r : rid)           (* read the next file named by the resolved version *)
+| REnd (r : rid).           (* every file has been read: the call returns *)
 
 Definition updr (r : rid) (s : rstate) (g : rid -> rstate) : rid -> rstate :=
   fun q => if Nat.eqb q r then s else g q.
 
-Definition r0 : rstate := {| r_start := None; r_idx := None; r_vid := None; r_ok := true; r_nread := 0; r_end := None |}.
+Definition r0 : rstate :=
+  {| r_start := None; r_nres := 0; r_idx := None; r_vid := None; r_todo := []; r_got := []; r_ok := true; r_end := None |}.
 
-Definition rstep (c : cfg) (z : rworld) (e : revent) : option rworld :=
+Definition nflips (z : rworld) : nat := length (w_hist (fw (rx z))).
+
+Definition rstep (c : cfg) (budget : nat) (z : rworld) (e : revent) : option rworld :=
   match e with
   | RSys fe => match fstep c (rx z) fe with Some x' => Some {| rx := x'; r_readers := r_readers z |} | None => None end
   | RStart r =>
     let s := r_readers z r in
     match r_start s with
-    | None => Some {| rx := rx z; r_readers := updr r {| r_start := Some (length (w_hist (fw (rx z)))); r_idx := None; r_vid := None;
-                                                          r_ok := true; r_nread := 0; r_end := None |} (r_readers z) |}
+    | None => Some {| rx := rx z;
+                      r_readers := updr r {| r_start := Some (nflips z); r_nres := 0; r_idx := None; r_vid := None; r_todo := [];
+                                             r_got := []; r_ok := true; r_end := None |} (r_readers z) |}
     | Some _ => None
     end
   | RPtr r =>
     let s := r_readers z r in
-    match r_start s, r_vid s with
-    | Some _, None => Some {| rx := rx z; r_readers := updr r {| r_start := r_start s; r_idx := Some (length (w_hist (fw (rx z))));
-                                                                 r_vid := Some (w_ptr (fw (rx z))); r_ok := r_ok s; r_nread := r_nread s;
-                                                                 r_end := None |} (r_readers z) |}
-    | _, _ => None
-    end
-  | RFile r f =>
-    let s := r_readers z r in
-    match r_vid s, r_end s with
-    | Some v, None =>
-      if existsb (Nat.eqb f) (refs (rx z) v) then
-        Some {| rx := rx z; r_readers := updr r {| r_start := r_start s; r_idx := r_idx s; r_vid := r_vid s;
-                                                   r_ok := r_ok s && existsb (Nat.eqb f) (f_present (rx z));
-                                                   r_nread := S (r_nread s); r_end := None |} (r_readers z) |}
+    match r_start s, r_end s with
+    | Some _, None =>
+      if Nat.ltb (r_nres s) budget then
+        Some {| rx := rx z;
+                r_readers := updr r {| r_start := r_start s; r_nres := S (r_nres s); r_idx := Some (nflips z);
+                                       r_vid := Some (w_ptr (fw (rx z))); r_todo := refs (rx z) (w_ptr (fw (rx z)));
+                                       r_got := r_got s; r_ok := r_ok s; r_end := None |} (r_readers z) |}
       else None
     | _, _ => None
     end
+  | RFile r =>
+    let s := r_readers z r in
+    match r_vid s, r_end s, r_todo s with
+    | Some _, None, f :: tl =>
+      let here := existsb (Nat.eqb f) (f_present (rx z)) in
+      Some {| rx := rx z;
+              r_readers := updr r {| r_start := r_start s; r_nres := r_nres s; r_idx := r_idx s; r_vid := r_vid s; r_todo := tl;
+                                     r_got := if here then r_got s ++ [f] else r_got s; r_ok := r_ok s && here;
+                                     r_end := None |} (r_readers z) |}
+    | _, _, _ => None
+    end
   | REnd r =>
     let s := r_readers z r in
-    match r_vid s, r_end s with
-    | Some _, None => Some {| rx := rx z; r_readers := updr r {| r_start := r_start s; r_idx := r_idx s; r_vid := r_vid s; r_ok := r_ok s;
-                                                                 r_nread := r_nread s; r_end := Some (length (w_hist (fw (rx z)))) |} (r_readers z) |}
-    | _, _ => None
+    match r_vid s, r_end s, r_todo s with
+    | Some _, None, [] =>
+      Some {| rx := rx z;
+              r_readers := updr r {| r_start := r_start s; r_nres := r_nres s; r_idx := r_idx s; r_vid := r_vid s; r_todo := [];
+                                     r_got := r_got s; r_ok := r_ok s; r_end := Some (nflips z) |} (r_readers z) |}
+    | _, _, _ => None
     end
   end.
 
-Definition rstep_skip c z e := match rstep c z e with Some z' => z' | None => z end.
-Definition rrun (c : cfg) (z : rworld) (evs : list revent) : rworld := fold_left (rstep_skip c) evs z.
+Definition rstep_skip c budget z e := match rstep c budget z e with Some z' => z' | None => z end.
+Definition rrun (c : cfg) (budget : nat) (z : rworld) (evs : list revent) : rworld := fold_left (rstep_skip c budget) evs z.
 Definition rinit (x : fworld) : rworld := {| rx := x; r_readers := fun _ => r0 |}.
 
 (* the version the pointer named after the first i flips *)
 Definition version_at (h : list (vid * aid)) (i : nat) : vid := last (map fst (firstn i h)) 0%nat.
+
+(* the rows a call hands out / the rows of a version, for any assignment of (immutable) contents to file names *)
+Definition result_rows {row : Type} (content : fid -> list row) (s : rstate) : list row := flat_map content (r_got s).
+Definition snapshot_rows {row : Type} (content : fid -> list row) (x : fworld) (v : vid) : list row := flat_map content (refs x v).
